@@ -291,6 +291,10 @@ def hierarchies_across_modules(run):
 SPECIAL = [
     ('bare-annotation-assigns-nothing',
      'class K:\n    x = 1\n    def m(self):\n        self.x: int\n        self.z: int = 3\n        return self\nobj = K()\nobj.x\n', (8, 5), [2]),
+    ('instance-assignment-wins-over-the-class-default',
+     'class Job:\n    timeout = None\n    def __init__(self):\n        self.timeout = 30\njob = Job()\njob.timeout\n', (6, 10), [4]),
+    ('class-default-of-a-base-loses-to-the-subclass-instance-assignment',
+     'class Base:\n    timeout = None\nclass Job(Base):\n    def setup(self):\n        self.timeout = 30\njob = Job()\njob.timeout\n', (7, 10), [5]),
     ('valued-annotation-is-an-instance-assignment',
      'class K:\n    z = 1\n    def m(self):\n        self.z: int = 3\n        return self\nobj = K()\nobj.z\n', (7, 5), [4]),
 ]
